@@ -135,6 +135,22 @@ func layersOf(s *Spec) []Layer {
 		}
 		l.Hint = h
 		return []Layer{l}
+	case "unimplf":
+		l := mk(s, "*issuelink.unimplementedError", Leaf, fmtText(s))
+		l.Unimpl = true
+		l.Link = &[2]string{S(3), S(4)}
+		h := issuelink.UnimplementedErrorHint
+		if S(3) != "" {
+			h += "\nSee: " + S(3)
+		} else {
+			h += stdstrings.IssueReferral
+		}
+		l.Hint = h
+		return []Layer{l}
+	case "stleaf":
+		g := mk(s, "*extgrpc.withGrpcCode", Transparent, "")
+		g.GRPC = s.I[0]
+		return []Layer{g, stackL(s), mk(s, "*errutil.leafError", Leaf, S(0))}
 	case "goerr":
 		return []Layer{mk(s, "*errors.errorString", Leaf, S(0))}
 	case "sentinel":
@@ -225,6 +241,22 @@ func layersOf(s *Spec) []Layer {
 		l := mk(s, "*hintdetail.withDetail", Transparent, "")
 		l.Detail = S(0)
 		return []Layer{l}
+	case "hintf":
+		l := mk(s, "*hintdetail.withHint", Transparent, "")
+		l.Hint = fmtText(s)
+		return []Layer{l}
+	case "detailf":
+		l := mk(s, "*hintdetail.withDetail", Transparent, "")
+		l.Detail = fmtText(s)
+		return []Layer{l}
+	case "stwrap":
+		g := mk(s, "*extgrpc.withGrpcCode", Transparent, "")
+		g.GRPC = s.I[0]
+		ls := []Layer{g, stackL(s)}
+		if S(0) != "" {
+			ls = append(ls, mk(s, "*errutil.withPrefix", Prefix, S(0)))
+		}
+		return ls
 	case "safedetails":
 		return []Layer{mk(s, "*safedetails.withSafeDetails", Transparent, "")}
 	case "telemetry":
